@@ -18,11 +18,13 @@ from simverif.core.rng import stream
 
 ID = 'C19'
 LEVEL = 'exploration'
-TIERS = {'quick': {'runs': 4000}, 'thorough': {'seconds': 600}}
+TIERS = {'quick': {'runs': 3000}, 'thorough': {'seconds': 600}}
 DET_PAIRS_PER_SLOT = 3
 RULE = ("one run = one seeded history of stores (own stream published, stream downloaded with/without "
-        "`file` row and with all/some blobs finished, network-seeded bare blobs, clock advances) interleaved "
-        "with 1..3 cleanup rounds; before each round both limits are drawn from {0, below, equal to, just "
+        "`file` row and with all/some blobs finished, network-seeded bare blobs, clock advances, a blob file lost "
+        "and the blob fetched again (own and foreign), restarts = new incarnation running BlobManager.setup over the "
+        "same directory + sqlite, optionally with all / the own / some blob files away for one start and back for the "
+        "next) interleaved with 1..3 cleanup rounds; before each round both limits are drawn from {0, below, equal to, just "
         "above, far above} the usage of that moment; a round is one `clean()` (direct or through the real "
         "cleaning_loop on the virtual clock), optionally followed by a second `clean()` with nothing changed. "
         "Blob lengths 1 KiB..2 MiB around the whole-MiB boundaries; a fifth of the runs move real bytes end "
@@ -46,13 +48,16 @@ ASSUMPTIONS = [
     'descriptor (sd) blobs of stored streams are outside the usage accounting; a foreign finished sd blob deleted by '
     'the network pass while the network class is over its limit is tolerated and counted (probe obs_network_deleted_stream_sd)',
     'no store runs concurrently with a cleanup pass',
+    '"published by the user" is the harness\' own record of the hashes its publish operations produced, never the '
+    '`is_mine` column; the usage classes follow the column (the product\'s reading); restarts are clean shutdowns',
 ]
 EXPECTED_PROBES = ['pass_content_over', 'pass_content_within', 'pass_content_equal', 'pass_content_unlimited',
                    'pass_content_inbetween', 'pass_network_over', 'pass_network_within', 'pass_network_equal',
                    'pass_network_zero_limit_over', 'removable_sufficient', 'removable_insufficient', 'deleted_any',
                    'deleted_multi', 'deleted_sd_blob', 'stopped_exactly_at_limit', 'second_pass', 'stores_between_rounds',
                    'real_bytes_run', 'own_stream', 'own_bare_blob', 'stream_without_file', 'partial_stream',
-                   'via_cleaning_loop', 'own_present_while_deleting', 'sd_pending']
+                   'via_cleaning_loop', 'own_present_while_deleting', 'sd_pending', 'refetch_own', 'refetch_foreign',
+                   'restart', 'restart_files_missing', 'restart_files_back', 'own_row_pending_after_start', 'own_reensured']
 
 MIB = be.MIB
 # strict reading switch: make the network pass deleting the descriptor blob of a *stored* stream a violation
@@ -88,14 +93,24 @@ def gen(run_seed, tier):
     profile = r.choice(['small', 'big', 'big', 'mixed', 'mixed'])
     rounds = r.choice([1, 1, 2, 2, 3])
     heavy = tier == 'thorough' and r.random() < 0.3
-    max_stores = (3 if real else 6) + (4 if heavy else 0)
+    max_stores = (4 if real else 7) + (4 if heavy else 0)
     max_blobs = (3 if real else 6) + (6 if heavy and not real else 0)
     ops = []
     for rd in range(rounds):
         n = r.randint(1 if rd == 0 else 0, max_stores)
         for _ in range(n):
-            kind = r.choices(['own', 'dl', 'net', 'age'], [3, 6, 4, 3])[0]
-            if kind == 'own':
+            kind = r.choices(['own', 'dl', 'net', 'age', 'refetch', 'restart'], [3, 6, 4, 3, 2, 1.2])[0]
+            if kind == 'refetch':
+                # a blob file is lost and the blob arrives again (re-adds an existing row as a non-owner would)
+                ops.append({'op': 'refetch', 'who': r.choice(['own', 'own', 'foreign', 'any']),
+                            'picks': [round(r.random(), 4) for _ in range(r.choice([1, 1, 2, 4]))]})
+            elif kind == 'restart':
+                # new incarnation over the same directory + sqlite; optionally blob files are away for one start
+                park = r.choice(['none', 'all', 'all', 'own', 'some'])
+                ops.append({'op': 'restart', 'park': park, 'frac': round(r.random(), 3), 'tag': r.getrandbits(16)})
+                if park != 'none' and r.random() < 0.75:
+                    ops.append({'op': 'restart', 'park': 'none', 'frac': 0.0, 'tag': 0})
+            elif kind == 'own':
                 k = r.randint(1, max_blobs)
                 ops.append({'op': 'own', 'sizes': [_size(r, profile) for _ in range(k)],
                             'src': r.choice([1024, 300_000, MIB, MIB + 5, 2 * MIB - 1, 3 * MIB, 4 * MIB + 77, 5 * MIB]),
@@ -135,6 +150,15 @@ def shrink(sc):
                 if op[cls].get('mode') != 'abs':
                     for v in vals:
                         yield repl(**{cls: {'mode': 'abs', 'value': v}})
+        elif op['op'] == 'restart':
+            if op.get('park') not in ('none', 'all'):
+                yield repl(park='all')
+        elif op['op'] == 'refetch':
+            if len(op.get('picks', [])) > 1:
+                for j in range(len(op['picks'])):
+                    yield repl(picks=op['picks'][:j] + op['picks'][j + 1:])
+            if op.get('who') != 'own':
+                yield repl(who='own')
         elif op['op'] in ('own', 'dl', 'net'):
             sizes = op['sizes']
             if len(sizes) > 1:
@@ -163,8 +187,12 @@ def shrink(sc):
 class Model:
     """Usage per class and removable sets recomputed from a table snapshot (harness' own SQL)."""
 
-    def __init__(self, snap):
+    def __init__(self, snap, published=frozenset()):
         self.rows = {h: (int(l), st, int(m), a) for h, l, st, m, a in snap['blob']}
+        # ground truth kept by the harness: hashes of blobs the user published (never read back from the
+        # `is_mine` column, which is product state); the usage classes below follow the product's flag
+        self.published = published
+        self.flag_lost = sorted(h for h in published if h in self.rows and not self.rows[h][2])
         self.sd = {sd for _s, sd in snap['stream']}
         sd_of = {s: sd for s, sd in snap['stream']}
         with_file = set(snap['file'])
@@ -202,6 +230,10 @@ class Model:
 
     def mb(self, h):
         return self.rows[h][0] // MIB
+
+    def is_own(self, h):
+        row = self.rows.get(h)
+        return h in self.published or bool(row is not None and row[2])
 
     @property
     def content_used_own_reading(self):
@@ -248,12 +280,15 @@ def execute(scenario, keep_trace=False):
     be.freeze_heap_once()
 
     run = Run(scenario, keep_trace)
-    loop = run.new_loop(max_steps=600_000)
     dirs = be.Dirs('sv-c19-')
+    parked_dir = os.path.join(dirs.root, 'parked')
+    os.makedirs(parked_dir)
+    published = set()            # harness memory: every hash that came out of a publish by the user
     real = bool(scenario.get('real'))
     if real:
         run.probes['real_bytes_run'] += 1
-    state = {'uid': 0, 'cls': None, 'deleted': None, 'rounds': 0, 'stores_since_round': 0, 'passes': []}
+    state = {'uid': 0, 'cls': None, 'deleted': None, 'rounds': 0, 'stores_since_round': 0, 'passes': [],
+             'next': 0, 'boots': 0, 'parked': False, 'unparked': False}
     limits = {'content': 0, 'network': 0}
 
     def uid():
@@ -266,11 +301,29 @@ def execute(scenario, keep_trace=False):
     try:
         conf = be.make_config(dirs)
 
-        async def driver():
+        async def driver(loop):
+            before_boot = {h: st for h, _l, st, _m, _a in be.db_snapshot(dirs.db_path)['blob']}
             storage = await be.open_storage(loop, conf, dirs)
             bm = BlobManager(loop, dirs.blobs, storage, conf)
             await bm.setup()
             tracker = be.CompletionTracker(bm)
+            state['boots'] += 1
+            if state['boots'] > 1:
+                boot_model = Model(be.db_snapshot(dirs.db_path), frozenset(published))
+                run.probes['restart'] += 1
+                if state['parked']:
+                    run.probes['restart_files_missing'] += 1
+                if state['unparked']:
+                    run.probes['restart_files_back'] += 1
+                if any(h in published and row[1] == 'pending' for h, row in boot_model.rows.items()):
+                    run.probes['own_row_pending_after_start'] += 1
+                if any(h in published and row[1] == 'finished' and before_boot.get(h) == 'pending'
+                       for h, row in boot_model.rows.items()):
+                    run.probes['own_reensured'] += 1
+                if boot_model.flag_lost:
+                    run.probes['obs_is_mine_flag_lost'] += 1
+                run.ev('boot', state['boots'], state['parked'], state['unparked'],
+                       sum(1 for r in boot_model.rows.values() if r[1] == 'finished'), len(boot_model.flag_lost))
             dsm = DiskSpaceManager(conf, storage, bm, cleaning_interval=1800, analytics=None)
 
             # ---- observation: ordered hashes handed to delete_blobs, attributed to the running class pass
@@ -299,7 +352,8 @@ def execute(scenario, keep_trace=False):
                     deleted, state['deleted'] = state['deleted'], None
                 post = be.db_snapshot(dirs.db_path)
                 post_files = set(be.list_dir(dirs.blobs))
-                judge(cls, limits[cls], Model(pre), Model(post), deleted, ret, pre_files, post_files)
+                own = frozenset(published)
+                judge(cls, limits[cls], Model(pre, own), Model(post, own), deleted, ret, pre_files, post_files)
                 state['passes'].append((cls, len(deleted)))
                 return ret
             dsm._clean = observed_clean_class
@@ -345,8 +399,12 @@ def execute(scenario, keep_trace=False):
                             loop, dirs.blobs, path, blob_completed_callback=bm.blob_completed)
                     await tracker.settle()
                     nblobs = len(desc.blobs) - 1
+                    published.update(b.blob_hash for b in desc.blobs[:-1])
+                    published.add(desc.sd_hash)
                 else:
                     desc, sd_json, now = synthetic_descriptor(op['sizes'], True)
+                    published.update(b.blob_hash for b in desc.blobs[:-1])
+                    published.add(desc.sd_hash)
                     for info in desc.blobs[:-1]:
                         placeholder(info.blob_hash)
                     await storage.add_blobs(*[(i.blob_hash, i.length, now, 1) for i in desc.blobs[:-1]], finished=True)
@@ -409,13 +467,55 @@ def execute(scenario, keep_trace=False):
                     run.probes['own_bare_blob'] += 1
                 for j, size in enumerate(op['sizes']):
                     if real:
-                        await be.download_blob(bm, be.det_bytes(('net', n, j), size), is_mine=bool(mine))
+                        data = be.det_bytes(('net', n, j), size)
+                        if mine:
+                            published.add(be.blob_hash_of(data))
+                        await be.download_blob(bm, data, is_mine=bool(mine))
                     else:
                         h = be.label_hash('c19net', n, j)
+                        if mine:
+                            published.add(h)
                         placeholder(h)
                         await storage.add_blobs((h, size, _time.time(), mine), finished=True)
                 await tracker.settle()
                 run.ev('net', n, len(op['sizes']), mine)
+
+            # ---- a blob file is lost and the blob arrives again ---------------------------------------------
+            async def refetch(op, n):
+                snap = be.db_snapshot(dirs.db_path)
+                files = set(be.list_dir(dirs.blobs))
+                who = op.get('who', 'any')
+                cands = sorted(h for h, _l, st, _m, _a in snap['blob'] if st == 'finished' and h in files and
+                               (who == 'any' or (h in published) == (who == 'own')))
+                lengths = {h: int(l) for h, l, _st, _m, _a in snap['blob']}
+                targets = []
+                for frac in op.get('picks', [0.0]):
+                    if cands:
+                        h = cands[min(len(cands) - 1, int(frac * len(cands)))]
+                        if h not in targets:
+                            targets.append(h)
+                done = []
+                for h in targets:
+                    path = os.path.join(dirs.blobs, h)
+                    with open(path, 'rb') as f:
+                        data = f.read()
+                    os.remove(path)                      # behind the daemon's back
+                    bm.blobs.pop(h, None)                # nobody holds the old object any more
+                    own = h in published
+                    run.faults['own_file_lost_and_refetched' if own else 'foreign_file_lost_and_refetched'] += 1
+                    run.probes['refetch_own' if own else 'refetch_foreign'] += 1
+                    if data and be.blob_hash_of(data) == h:
+                        # real bytes: through a real writer, as a download does (BlobFile defaults to is_mine=False)
+                        _blob, outcome = await be.download_blob(bm, data)
+                    else:
+                        # synthetic length: same completion path without the bytes
+                        blob = bm.get_blob(h, lengths[h])
+                        placeholder(h)
+                        bm.blob_completed(blob)
+                        outcome = 'synthetic'
+                    await tracker.settle()
+                    done.append((short(h), own, outcome))
+                run.ev('refetch', n, who, done)
 
             # ---- cleanup rounds -----------------------------------------------------------------------
             async def do_clean(op, n):
@@ -423,7 +523,7 @@ def execute(scenario, keep_trace=False):
                 if state['rounds'] > 1 and state['stores_since_round']:
                     run.probes['stores_between_rounds'] += 1
                 state['stores_since_round'] = 0
-                m = Model(be.db_snapshot(dirs.db_path))
+                m = Model(be.db_snapshot(dirs.db_path), frozenset(published))
                 if m.shared:
                     run.notes.append('shared blob generated (outside the domain)')
                     return False
@@ -509,16 +609,21 @@ def execute(scenario, keep_trace=False):
                     if pre.own:
                         run.probes['own_present_while_deleting'] += 1
 
-                # -- never the user's own blobs (rows and files)
+                # -- never the user's own blobs (rows and files); "own" = published by the user according to the
+                #    harness' own record (plus whatever the table flags as own), never the table flag alone
+                if pre.flag_lost:
+                    run.probes['obs_is_mine_flag_lost'] += 1
                 for h in all_deleted:
-                    row = pre.rows.get(h)
-                    if row is not None and row[2]:
-                        return run.violation('C19.own_deleted', f'{cls} pass deleted own blob {short(h)} '
-                                             f'({row[0]} bytes, {row[1]})', **site)
-                for h, row in pre.rows.items():
-                    if row[2] and h in pre_files and h not in post_files:
-                        return run.violation('C19.own_deleted', f'file of own blob {short(h)} disappeared during the '
-                                             f'{cls} pass', **site)
+                    if pre.is_own(h):
+                        row = pre.rows.get(h)
+                        return run.violation(
+                            'C19.own_deleted',
+                            f'{cls} pass deleted {short(h)}, a blob the user published (row before the pass: {row}; '
+                            f'is_mine flag {"lost" if h in pre.flag_lost else "set"})', **site)
+                for h in pre.rows:
+                    if pre.is_own(h) and h in pre_files and h not in post_files:
+                        return run.violation('C19.own_deleted', f'file of published blob {short(h)} disappeared during '
+                                             f'the {cls} pass', **site)
                 # -- nothing when content storage is unlimited
                 if unlimited and all_deleted:
                     return run.violation('C19.deleted_unlimited', f'content limit 0 (unlimited) but {len(all_deleted)} '
@@ -591,9 +696,22 @@ def execute(scenario, keep_trace=False):
                 return None
 
             # ---- the history -------------------------------------------------------------------------------
-            for n, op in enumerate(scenario['ops']):
+            ops = scenario['ops']
+            while state['next'] < len(ops):
+                n = state['next']
+                op = ops[n]
+                state['next'] += 1
                 kind = op.get('op')
-                if kind == 'own':
+                if kind == 'restart':
+                    await tracker.settle()
+                    bm.stop()
+                    await storage.close()
+                    move_files(op, n)
+                    return 'restart'
+                if kind == 'refetch':
+                    await refetch(op, n)
+                    state['stores_since_round'] += 1
+                elif kind == 'own':
                     await store_own(op, n)
                     state['stores_since_round'] += 1
                 elif kind == 'dl':
@@ -621,13 +739,47 @@ def execute(scenario, keep_trace=False):
                     break
             bm.stop()
             await storage.close()
+            return 'end'
 
-        try:
-            run.drive(driver())
-        except (SimBudget, SimIdle):
-            pass
-        if loop.task_failures:
-            run.notes.append(f'task failures: {loop.task_failures[:3]}')
+        def move_files(op, n):
+            """Between two incarnations: files parked at the previous restart come back, then the files
+            this restart asks for go away (blob directory / some files temporarily unavailable)."""
+            back = 0
+            for name in be.list_dir(parked_dir):
+                dst = os.path.join(dirs.blobs, name)
+                if os.path.exists(dst):
+                    os.remove(os.path.join(parked_dir, name))
+                else:
+                    os.rename(os.path.join(parked_dir, name), dst)
+                    back += 1
+            state['unparked'] = back > 0
+            park = op.get('park', 'none')
+            away = 0
+            if park != 'none':
+                import random as _random
+                for name in be.valid_blob_files(dirs.blobs):
+                    if park == 'own' and name not in published:
+                        continue
+                    if park == 'some' and _random.Random(f"{op.get('tag', 0)}:{name}").random() >= op.get('frac', 0.5):
+                        continue
+                    os.rename(os.path.join(dirs.blobs, name), os.path.join(parked_dir, name))
+                    away += 1
+            state['parked'] = away > 0
+            if away:
+                run.faults['blob_files_away_for_one_start'] += 1
+            run.ev('restart', n, park, 'away', away, 'back', back)
+
+        while True:
+            loop = run.new_loop(max_steps=600_000)
+            try:
+                outcome = run.drive(driver(loop))
+            except (SimBudget, SimIdle):
+                outcome = 'stop'
+            if loop.task_failures:
+                run.notes.append(f'task failures: {loop.task_failures[:3]}')
+            if outcome != 'restart' or run.violations:
+                break
+            run.kill_loop()
         run.nontrivial = bool(state.get('over') or state.get('deleted_total'))
         run.finish()
         return run.result()
